@@ -175,6 +175,7 @@ def run(ctx, R):
 
     # ---- R10.5 -------------------------------------------------------------
     _r10_5(ctx, R)
+    _r10_7(ctx, R)
 
     # ---- R10.6 -------------------------------------------------------------
     n6 = 0
@@ -508,6 +509,45 @@ MUTATOR_METHODS = {
     'add_inventory', 'delete_inventory', 'set_inventory', 'update_inventory',
     'set_aggregates', 'set_traits',
 }
+
+
+def _r10_7(ctx, R):
+    """No rejection after the write: once a generation-moving mutator has
+    returned (its transaction is committed), the handler answers with
+    success.  A client error raised afterwards reports a failure for a
+    write that happened (and whose generation moved)."""
+    n = 0
+    for f in C.handler_defs(ctx):
+        impl, _ = C.impl_of(ctx, f)
+        muts = C.mutator_sites(ctx, impl)
+        if not muts:
+            continue
+        g = cfgmod.cfg_of(impl)
+        for m, _rx, meth in muts:
+            mst = C.stmt_of(m)
+            after = g.reachable_from([mst], normal_only=True) - {mst}
+            bad = []
+            for st in g.stmts:
+                if st not in after:
+                    continue
+                if isinstance(st, ast.Raise):
+                    bad.append('line %d raise' % st.lineno)
+                    continue
+                for x in cfgmod.header_nodes(st):
+                    if isinstance(x, ast.Call):
+                        rs = [r for r in ctx.raises.call_raises(impl, x)
+                              if r.startswith('webob.exc.HTTP')]
+                        if rs:
+                            bad.append('line %d %s may raise %s' % (
+                                st.lineno, src(x.func), sorted(rs)[:2]))
+            n += 1
+            R.ob('R10.7', '%s:%s:no-rejection-after-write' % (f.qname, meth),
+                 not bad,
+                 'after the mutator returned the handler only builds the '
+                 'success response (no HTTP error can be raised for a write '
+                 'that is already committed)', bad[:3] or 'ok', func=impl,
+                 node=m)
+    R.count('R10.7', n, 8)
 
 
 def _r10_5(ctx, R):
